@@ -4,6 +4,7 @@ import AfkakProofs.Producer.Spec
 import AfkakProofs.Producer.RelStep
 import AfkakProofs.Producer.Geo
 import AfkakProofs.Producer.Order
+import AfkakProofs.Producer.Compose
 /-!
 # C09 — Per-partition send order is preserved and retries are disciplined
 Property theorems only.  Model: `Afkak/Producer.lean`; monitors: `Afkak/Monitor/C09.lean`.
@@ -89,6 +90,57 @@ theorem C09_retry_guard_handler (cfg : Cfg) (st : St) (b : Batch) (r : ProdRes)
   cases h2 with
   | retry a1 a2 a3 a4 a5 a6 a7 a8 => exact ⟨a4, a5, a8, a6⟩
 
+/-! ## Producer × KafkaClient, composed at `send_produce_request(payloads, fail_on_error=False)` -/
+open Afkak.Producer.Compose in
+/-- With `fail_on_error=False` the client's `_handle_responses` raises nothing for a produce reply (no
+    response carries a group-coordinator error code): every per-partition response is returned. -/
+theorem C09_client_returns_every_response (c : Afkak.ClientCache.Cache) (resps : List (String × Int))
+    (h : ∀ x ∈ resps, clientGroupResetErrnos.contains x.2 = false) :
+    (Afkak.ClientCache.handleResponses c false none resps).2 = none :=
+  handleResponses_silent c resps h
+
+open Afkak.Producer.Compose in
+/-- Retry only what failed, ACROSS the composed step.  The Producer model waits on a produce request
+    (`sending rid b`); the client completes it with what its assembling kernel (`Afkak.ClientCache.assemble`,
+    the tail of `_send_broker_aware_request`) makes of the outcomes of the broker requests - under C07's
+    routing/answering conditions (`Hyp`: the requests partition the payload list, a broker that answers
+    answers for exactly what it was asked).  Then the completion is an ENABLED event of the Producer model
+    (valid: it names only payloads of the request, each once), it ACCOUNTS for every payload (the hypothesis
+    of C01 "fires" and C09 "one batch" is discharged by the client kernel), every response reaches the
+    Producer with its error code and offset, and if a retry follows it carries exactly the payloads of the
+    failed broker requests, then the payloads answered with an error code - every payload answered with
+    error 0 has left the unacknowledged set for good. -/
+theorem C09_composed_retry_only_failed (nm : Topic → String) (cfg : Cfg) (st : St) (rid : Rid) (b : Batch)
+    (results : List (List Nat × Afkak.ClientCache.BrokerResult ErrKind)) (h : Hyp nm b.current results)
+    (hp : st.phase = .sending rid b) :
+    step cfg st (.produceDone rid (clientResult nm b.current results)) =
+      finish cfg (handleSendResponse cfg st b (clientResult nm b.current results)) ∧
+    AccOK true cfg st (.produceDone rid (clientResult nm b.current results)) ∧
+    (∀ x ∈ respsOf (clientResult nm b.current results),
+      ∃ cr ∈ (Afkak.ClientCache.assemble (b.current.map (key nm)) results).1,
+        cr.key = key nm x.tp ∧ x.error = cr.err ∧ x.offset = cr.tag) ∧
+    (∀ tid b' tps, (handleSendResponse cfg st b (clientResult nm b.current results)).1.phase = .retryWait tid b' tps →
+      tps = (fsOf nm b.current results).map (·.tp) ++ ((rsOf nm b.current results).filter (·.error ≠ 0)).map (·.tp) ∧
+      ∀ x ∈ rsOf nm b.current results, x.error = 0 → x.tp ∉ b'.live) :=
+  compose_step cfg st rid b h hp
+
+/-! Non-vacuity: two payloads on two brokers; one broker answers (error 0), the other request fails. -/
+section
+open Afkak.Producer.Compose
+def exKeys : List TP := [⟨0, 0⟩, ⟨0, 1⟩]
+def exResults : List (List Nat × Afkak.ClientCache.BrokerResult ErrKind) :=
+  [([0], .ok [⟨("t0", 0), 7, 0⟩]), ([1], .fail .unavailable)]
+def exNm (t : Topic) : String := "t" ++ toString t
+example : clientResult exNm exKeys exResults = .failed [⟨⟨0, 0⟩, 0, 7⟩] [⟨⟨0, 1⟩, .unavailable, true⟩] := by decide +kernel
+example : Hyp exNm exKeys exResults := by
+  refine ⟨by decide, by decide, by decide, by decide, by decide, ?_⟩
+  intro idxs rs hm
+  simp only [exResults, List.mem_cons, Prod.mk.injEq, List.mem_nil_iff, or_false, reduceCtorEq, and_false] at hm
+  obtain ⟨rfl, hrs⟩ := hm
+  injection hrs with hrs; subst hrs
+  exact ⟨by decide, by decide⟩
+end
+
 end Afkak.Props.C09
 
 /- OBLIGATIONS
@@ -100,6 +152,8 @@ C09_retry_only_failed_handler
 C09_retry_guard_handler
 C09_order
 C09_one_batch
+C09_client_returns_every_response
+C09_composed_retry_only_failed
 -/
 /- OPEN_STATEMENTS
 -/
